@@ -69,7 +69,14 @@ def make_input(tree, cfg):
             if len(parts) > 1 and parts[1] != '':
                 flagged.append(parts[0])
     enc = lambda ls: esc_list(['%s=%s' % kv for kv in ls])
-    op = '\t'.join([enc(src), esc_list(ign), enc(ub), '1' if copy_ub else '0', esc_list(r41), esc_list(ow), enc(full), esc_list(flagged), esc_list(edited)])
+    # systemd drop-ins: systemd/default always, then systemd/full with --full and systemd/early without (cmd/prebuild/main.go, cli.go)
+    sd = []
+    for part in ('default', 'full' if cfg.full else 'early'):
+        base = os.path.join(tree, 'systemd', part)
+        for q, v in sorted(listing(tree, 'systemd/' + part)):
+            sd.append(('systemd/' + os.path.relpath(os.path.join(tree, q), base), v))
+    op = '\t'.join([enc(src), esc_list(ign), enc(ub), '1' if copy_ub else '0', esc_list(r41), esc_list(ow), enc(full), esc_list(flagged),
+                    esc_list(edited), enc(sd)])
     return op
 
 
@@ -79,7 +86,9 @@ def run(ctx):
     broken = ctx.audit(THEOREMS)
     if ctx.tier == 'quick':
         cfgs = [lib.Cfg('arch', 4, '4.1'), lib.Cfg('debian', 3, '3.0'), lib.Cfg('ubuntu', 4, '4.0', full=True), lib.Cfg('whonix', 3, '3.0'),
-                lib.Cfg('opensuse', 4, '4.0', full=True), lib.Cfg('debian', 4, '4.1', full=True), lib.Cfg('whonix', 4, '4.1')]
+                lib.Cfg('opensuse', 4, '4.0', full=True), lib.Cfg('debian', 4, '4.1', full=True), lib.Cfg('whonix', 4, '4.1'),
+                # ABI and version are independent options: the mixed pairs are configurations too
+                lib.Cfg('arch', 3, '4.1'), lib.Cfg('ubuntu', 4, '3.0', full=True), lib.Cfg('opensuse', 3, '4.0')]
     else:
         cfgs = [lib.Cfg(d, a, v, 'none', f) for d in lib.DISTS for (a, v) in lib.ABIVERS for f in (False, True)]
 
@@ -91,6 +100,10 @@ def run(ctx):
         os.makedirs(os.path.join(tree, '.build', 'apparmor.d', 'groups', 'zz'), exist_ok=True)
         open(os.path.join(tree, '.build', 'apparmor.d', 'groups', 'zz', 'stale'), 'w').write('stale\n')
         open(os.path.join(tree, '.build', 'apparmor.d', 'stale-profile'), 'w').write('stale\n')
+        os.makedirs(os.path.join(tree, '.build', 'systemd', 'system', 'stale.service.d'), exist_ok=True)
+        open(os.path.join(tree, '.build', 'systemd', 'system', 'stale.service.d', 'apparmor.conf'), 'w').write('[Service]\nAppArmorProfile=stale\n')
+        os.makedirs(os.path.join(tree, '.build', 'share'), exist_ok=True)
+        open(os.path.join(tree, '.build', 'share', 'stale'), 'w').write('stale\n')
         # the task list is read from the real binary; the prepare stage alone is then run in-process (cli.Prepare)
         tree2 = tree + '-b'
         lib.copy_tree(tree2)
@@ -101,7 +114,8 @@ def run(ctx):
         if rc == 0 and tasks:
             r = ctx.run_go('cliprepare', ['%s\t%s\t%d\t%s\t%s' % (esc(tree), cfg.dist, cfg.abi, cfg.version, esc_list(tasks))])[0]
             if r == 'ok':
-                got = dict(listing(os.path.join(tree, '.build'), 'apparmor.d') + listing(os.path.join(tree, '.build'), 'share'))
+                got = dict(listing(os.path.join(tree, '.build'), 'apparmor.d') + listing(os.path.join(tree, '.build'), 'share')
+                           + listing(os.path.join(tree, '.build'), 'systemd'))
             else:
                 out = r
         shutil.rmtree(tree, ignore_errors=True)
@@ -137,7 +151,7 @@ def run(ctx):
     ctx.cov['search']['real_prepare'] = {'configs': len(cfgs), 'entries_compared': nent}
     ctx.sample({'config': cfgs[0].name(), 'expected_entries': len(unesc_list(spec[0].split('\t')[1]))})
     ctx.cov['rule'] = ('for each configuration: the real prebuild run over a build directory holding stale files; .build/apparmor.d and '
-                       '.build/share listed (sha1 of every file, target of every symlink) and compared with Prep.spec evaluated by the '
+                       '.build/share and .build/systemd listed (sha1 of every file, target of every symlink) and compared with Prep.spec evaluated by the '
                        'driver on the listing of the working tree, the ignore lists, the overwrite list and the flags manifests')
     if broken and not any(c for _, c, _ in ctx.violations):
         ctx.violation('obligation broken: ' + '; '.join(broken)[:600], {'broken': broken}, concrete=False)
